@@ -39,7 +39,9 @@ where
             return Err(ExecutionError::NotU32Value(b, err_code));
         }
 
-        self.add_range_checks(Operation::U32assert2(err_code), a, b, false);
+        // helper registers h0, h1 hold the limbs of the second stack element and h2, h3 hold the
+        // limbs of the top stack element, as the limb aggregation constraints of the AIR require.
+        self.add_range_checks(Operation::U32assert2(err_code), b, a, false);
 
         self.stack.copy_state(0);
         Ok(())
